@@ -169,6 +169,11 @@ func (seg *Segment) AmbiguousPrefix(s2 *Segment) int {
 	return int(s2.AmbiguousLen()) - (len(s2.Suffix) - len(seg.Suffix))
 }
 
+// Captures 当前节点在匹配成功之后是否会向 [types.Context] 写入参数
+//
+// 字符串节点以及以 - 开头的忽略名称的节点，不会写入任何参数。
+func (seg *Segment) Captures() bool { return seg.Type != String && !seg.ignoreName }
+
 func (seg *Segment) AmbiguousLen() int16 {
 	return seg.ambiguousLength + int16(len(seg.Name))
 }
